@@ -78,14 +78,15 @@ def quantiseScale : Dbl → Except Err (Int × Int)
     let r := quantiseNorm p.1 p.2
     .ok (if neg then -r.1 else r.1, r.2)
 
-/-- `reduced_quantise_scale(scale)` — note that the guard tests `shift`, not `reduced_shift` -/
+/-- `reduced_quantise_scale(scale)` — the guard tests `reduced_shift` (repaired in /repo de981c1;
+    before, it re-tested `shift` and let negative reduced shifts through) -/
 def reducedQuantiseScale (x : Dbl) : Except Err (Int × Int) :=
   match quantiseScale x with
   | .error e => .error e
   | .ok (multiplier, shift) =>
     let reduced : Int := if multiplier < 32767 <<< 16 then (multiplier + 2 ^ 15) >>> 16 else 32767
     let reducedShift := shift - 16
-    if ¬ (0 ≤ shift ∧ shift < 64) then .ok (0, 16) else .ok (reduced, reducedShift)
+    if ¬ (0 ≤ reducedShift ∧ reducedShift < 64) then .ok (0, 16) else .ok (reduced, reducedShift)
 
 /-! ### `quantise_pooling_scale` -/
 
@@ -202,8 +203,16 @@ structure SimplifiedResult where
   outShift : Int
 deriving Repr, DecidableEq
 
-/-- `simplified_elementwise_add_sub_scale(input1_scale, input2_scale, output_scale, input_shift)` -/
+/-- `np.double(x)`: exact for every Python float / np.float32 / np.float64 -/
+def toDouble (v : FVal) : FVal := ⟨.f64, v.val⟩
+
+/-- `simplified_elementwise_add_sub_scale(input1_scale, input2_scale, output_scale, input_shift)`:
+    the three scales are converted with `np.double` on entry (repaired in /repo 8198013), so every
+    operation below runs in double precision whatever scalar type arrived -/
 def simplifiedAddSub (A : Arith) (s1 s2 so : FVal) (inputShift : Nat) : Except Err SimplifiedResult :=
+  let s1 := toDouble s1
+  let s2 := toDouble s2
+  let so := toDouble so
   let mx := pyMax A s1 s2
   let twoMx := fmulInt A mx 2
   match fdiv A (fmulInt A s1 (2 ^ inputShift)) twoMx with
@@ -333,26 +342,16 @@ def ewRegistersAddSub (A : Arith) (bitdepth : Int) (s1 s2 so : FVal) (reversed :
   else advanced
 
 /-- `generate_ofm_scaling_for_pooling`, last branch (plain average pool, no fused activation /
-    quantize / explicit rescale), for **equal** IFM and OFM scales (`rescale = 1.0` in kind `k`):
-    `scale = int(round_away_zero(scale * rescale))` converts the Python int to kind `k` first. -/
-def poolRegistersEqualScales (A : Arith) (k : FKind) (n : Int) : Except Err (Int × Int) :=
+    quantize / explicit rescale), for **equal** IFM and OFM scales: `rescale = np.double(ifm) /
+    np.double(ofm) = 1.0` (repaired in /repo 5f5d642; before, an `np.float32` rescale made the product
+    float32), `scale = int(round_away_zero(scale * rescale))` converts the Python int to double. -/
+def poolRegistersEqualScales (A : Arith) (n : Int) : Except Err (Int × Int) :=
   match quantisePoolingScale n 0 with
   | .error e => .error e
   | .ok (S, sh) =>
     if S < 0 ∨ S ≥ 2 ^ 53 then .error .unmodelled else
-    match (A.mul k (A.cast k (.fin false S.toNat 0)) (.fin false 1 0)).truncInt with
+    match (A.mul .f64 (A.cast .f64 (.fin false S.toNat 0)) (.fin false 1 0)).truncInt with
     | .error e => .error e
     | .ok S' => .ok (regOffset S', regParam sh)
-
-/-- round-to-nearest-even of a natural number to `bits` significant bits (what the conversion of a
-    Python int to float32 does for `bits = 24`) -/
-def rneNat (bits : Nat) (n : Nat) : Nat :=
-  let len := bitLength n
-  if len ≤ bits then n else
-  let sh := len - bits
-  let q := n / 2 ^ sh
-  let r := n % 2 ^ sh
-  let half := 2 ^ (sh - 1)
-  if r > half ∨ (r = half ∧ q % 2 = 1) then (q + 1) * 2 ^ sh else q * 2 ^ sh
 
 end VelaVerif.Scaling
